@@ -36,44 +36,46 @@ Definition token_attr (enc : bool) (f : fmt) (kv : str * rval) : str * option st
 Definition token_attrs (enc : bool) (f : fmt) (p : tagp) : list (str * option str) :=
   map (token_attr enc f) (attributes f p).
 
-(* the part of a Doctype-like suffix that belongs to the declaration itself (without the newline) *)
+(* a suffix that ends with a newline (Doctype's ">\n") is the end of the declaration followed by character
+   data: the newline is text to whoever reads the markup back *)
+Definition ends_nl (s : str) : bool := match rev s with 10 :: _ => true | _ => false end.
 Definition special_suffix (c : N) : str :=
-  if output_kind c =? 2 then removelast (snd (affixes c)) else snd (affixes c).
+  let suf := snd (affixes c) in if ends_nl suf then removelast suf else suf.
+Definition trailing (c : N) : str :=
+  if ends_nl (snd (affixes c)) then [nl_] else [].
 
-Definition string_tokens (f : fmt) (c : N) (s : str) (pname : option str) (nextnl : bool) : list token :=
-  match output_kind c with
-  | 0 => [TText (fst (affixes c) ++ substitute f true pname s ++ snd (affixes c))]
-  | 2 => TSpecial c s :: (if nextnl then [] else [TText [nl_]])
-  | _ => [TSpecial c s]
-  end.
+Definition string_tokens (f : fmt) (c : N) (s : str) (pname : option str) : list token :=
+  if preformatted c then
+    TSpecial c s :: match trailing c with [] => [] | t => [TText t] end
+  else [TText (fst (affixes c) ++ substitute f true pname s ++ snd (affixes c))].
 
-Fixpoint tokens (enc : bool) (f : fmt) (pname : option str) (nextnl : bool) (t : node) : list token :=
+Fixpoint tokens (enc : bool) (f : fmt) (pname : option str) (t : node) : list token :=
   match t with
-  | NStr c s => string_tokens f c s pname nextnl
+  | NStr c s => string_tokens f c s pname
   | NTag p ks =>
       if g_hidden p then
         TNone :: (fix go (l : list node) : list token :=
                     match l with
                     | [] => []
-                    | k :: l' => tokens enc f (Some (g_name p)) (starts_nl l') k ++ go l'
+                    | k :: l' => tokens enc f (Some (g_name p)) k ++ go l'
                     end) ks ++ (if is_empty_element p (length ks) then [] else [TNone])
       else if is_empty_element p (length ks) then [TEmptyTag (qname p) (token_attrs enc f p) (f_void f)]
       else TOpen (qname p) (token_attrs enc f p) ::
            (fix go (l : list node) : list token :=
               match l with
               | [] => []
-              | k :: l' => tokens enc f (Some (g_name p)) (starts_nl l') k ++ go l'
+              | k :: l' => tokens enc f (Some (g_name p)) k ++ go l'
               end) ks
            ++ [TClose (qname p)]
   end.
 Fixpoint tokens_kids (enc : bool) (f : fmt) (pname : str) (l : list node) : list token :=
   match l with
   | [] => []
-  | k :: l' => tokens enc f (Some pname) (starts_nl l') k ++ tokens_kids enc f pname l'
+  | k :: l' => tokens enc f (Some pname) k ++ tokens_kids enc f pname l'
   end.
 Definition tokens_of (enc : bool) (f : fmt) (t : node) : list token :=
   match t with
-  | NTag p ks => if g_hidden p then tokens_kids enc f (g_name p) ks else tokens enc f None false t
+  | NTag p ks => if g_hidden p then tokens_kids enc f (g_name p) ks else tokens enc f None t
   | NStr _ _ => []
   end.
 
